@@ -148,6 +148,15 @@ CLAIMS = {
              "plus pending requests. NOT decided: monotonicity of a quotient across states (relational, numeric) - declined.",
         technique="constant-propagation specialisation + reachability + operand roles",
         ref="6/C04"),
+    "C13": dict(
+        text="Decides the structural clauses of RemoveValidator: owner-only; the registry entry is removed before the recount and no success "
+             "exit avoids the not-empty observation; the amount redistributed is the hub's whole delegation (query_delegation(...).amount.amount, "
+             "not can_redelegate); entries pair remaining[i] with plan[i] in the delegation's denom, source is the removed address; "
+             "RedelegateProxy then UpdateGlobalIndex to the hub, message-less success only on the can_redelegate < amount edge; the hub's "
+             "RedelegateProxy copies src/dst/amount 1:1 per entry (registry-only: C10). NOT decided: sum of redelegations = delegation "
+             "(C12 arithmetic); delegated - booked unchanged (run-time).",
+        technique="dominance + guard reachability + index-expression pairing + message-sequence extraction on MIR",
+        ref="6/C13"),
 }
 
 NA = {
